@@ -12,7 +12,7 @@ ATOMS = ["a", "0", "0x", "0b1", "7", "\"", "\"s\"", "\\", "[{", "}]", "/*", "*/"
          "#ifdef", "#ifdef X", "#ifndef X", "#else", "#endif", "#define X", "#define", "#", "#x", "..", "...", ".",
          "!zz", "!add", "!cond", "é", "€", "\U0001d11e", " ", "\x0c", "$", "$a", "class", "def", "let", "in",
          "{", "}", "<", ">", ";", "(", ")", "[", "]", ",", "=", ":", "-", "+", "?", "include", "defm", "multiclass",
-         "foreach", "if", "then", "else", "X"]
+         "foreach", "if", "then", "else", "X", "99999999999999999999", "18446744073709551616", "-9223372036854775809", "0x1" + "0" * 16]
 
 
 def atom_sequences(maxlen, atoms=None):
